@@ -64,6 +64,10 @@ CHECKS = {
  "C20": dict(design="4/C20", technique="differential property testing between runs: transcript of a generated history compared across two in-process worlds and a fresh process",
    text="Exploration: full transcripts (handles, results, joins, events, serialised bytes) of generated single-threaded histories and save/load cases must be identical across two runs in one process and a run in a fresh process with different hash seeds and address layout.",
    note="teardown destructor order and UuidMarker::new_random excluded by design"),
+
+ "C18": dict(design="4/C18", technique="generated-program property testing: a grammar of type definitions is printed as a crate with hand-expanded reference conversions, compiled against the working tree's specs-derive, run, and judged per type",
+   text="Exploration over programs: generated struct / enum shapes (named, tuple, nested, generic, skip attributes) and Component declarations; each type's derived conversion is compared value by value with an independently generated field-wise reference (JSON equality, permuted round trip), each derived Component's Storage TypeId with the requested one.",
+   note="grammar restricted to shapes the derive supports (at least one converted field per type; no Entity inside tuples/arrays/Option); needs cargo at check time (offline)"),
 }
 
 NOT_YET = {}
